@@ -41,12 +41,16 @@ def verify_functions(src, quals, tags=None, interface_factory=None, timeout=30, 
     t0 = time.time()
     for qual in quals:
         c = REGISTRY[qual]
+        if c.setup is None:
+            continue
         if not src.has(qual):
             oor.append((qual, '-', 'function no longer exists in the source'))
             continue
-        for model in c.stream_models:
-            vr = c.verify(src, make, model)
+        for model, variant in [(m, v) for m in c.stream_models for v in c.variants]:
+            vr = c.verify(src, make, model, variant)
             stats['functions'] += 1
+            if variant is not None:
+                model = '%s,%s' % (model, variant)
             if vr.out_of_reach:
                 oor.append((qual, model, vr.out_of_reach))
                 continue
